@@ -649,6 +649,6 @@ func checkIntOps(t *testing.T, ops []intOp, quick, thorough int, faultFloor floa
 	})
 }
 
-func TestC13_Arith(t *testing.T)   { checkIntOps(t, opsArith, 40000, 2400000, 0.05) }
-func TestC13_BitShift(t *testing.T) { checkIntOps(t, opsBit, 30000, 1600000, 0.05) }
-func TestC13_Compare(t *testing.T)  { checkIntOps(t, opsCmp, 30000, 1600000, 0.015) }
+func TestC13_Arith(t *testing.T)    { checkIntOps(t, opsArith, 40000, 1800000, 0.05) }
+func TestC13_BitShift(t *testing.T) { checkIntOps(t, opsBit, 30000, 1200000, 0.05) }
+func TestC13_Compare(t *testing.T)  { checkIntOps(t, opsCmp, 30000, 1200000, 0.015) }
